@@ -184,10 +184,10 @@ pub fn def() -> PropertyDef {
 			"the harness DER reader finds the byte range of the signed part correctly (unit-tested, cross-checked against OpenSSL by C12/C03 which verify whole certificates)",
 		],
 		subs: vec![
-			prop_sub("cert", 8_000, 400_000, || cert_case(CertGenOpts::FULL, false), check_cert_case),
-			prop_sub("csr", 4_000, 150_000, || csr_case(false), check_csr_case),
-			prop_sub("crl", 4_000, 150_000, || crl_case(false, false), check_crl_case),
-			prop_sub("fault", 3_000, 100_000, fault_case, check_fault_case),
+			prop_sub("cert", 32_000, 400_000, || cert_case(CertGenOpts::FULL, false), check_cert_case),
+			prop_sub("csr", 16_000, 150_000, || csr_case(false), check_csr_case),
+			prop_sub("crl", 16_000, 150_000, || crl_case(false, false), check_crl_case),
+			prop_sub("fault", 12_000, 100_000, fault_case, check_fault_case),
 		],
 	}
 }
